@@ -70,6 +70,10 @@ var alphabet = []segKind{
 	{"s150", sentence(150, "b"), false},
 	{"s200", sentence(200, "c"), false},
 	{"s250", sentence(250, "d"), false},
+	// sentences in multi-byte scripts with ASCII sentence punctuation: capital first letter, ". " at the
+	// end (rune index != byte index everywhere after them; 2-byte and 3-byte characters, odd/even lengths)
+	{"mbs", "\u0395\u03bb\u03bb\u03b7\u03bd\u03b9\u03ba\u03ac \u043a\u0438\u0440\u0438\u043b\u043b\u0438\u0446\u0430 caf\u00e9 \u00fcber. ", false},      // Greek + Cyrillic + accented Latin
+	{"mbs3", "\u00c9t\u00e9 \u65e5\u672c\u8a9e\u306e\u6587 \u5b66\u6821 na\u00efve \u0442\u0435\u043a\u0441\u0442. ", false}, // accented capital + CJK + Cyrillic
 	{"q", "? ", false},
 	{"nl", "\n", false},
 	{"para", "\n\n", false},
